@@ -38,7 +38,7 @@ func runC09(c *core.Ctx) {
 	c.SetSample(fmt.Sprintf("%s steps=%d", cfg, n))
 	cuts := 0
 	for k := 0; k <= n && !c.Failed(); k++ {
-		for _, kind := range []string{"restart", "close", "failed"} {
+		for _, kind := range []string{"restart", "close", "restart+close", "restart+gather+close", "failed"} {
 			if kind == "failed" && k%3 != 0 {
 				continue // the Failed cut costs a long simulated wait; every third position
 			}
@@ -87,6 +87,26 @@ func c09Sub(c *core.Ctx, t *tape.Tape, cfg gCfg, faults bool, cut int, kind stri
 				c.Failf("harness/restart", "%v", err)
 			}
 			c.Probe("cut-restart")
+		case "restart+gather+close":
+			// a new cycle is started right after the Restart, then Close follows at once: Close waits for the
+			// new cycle only, the superseded one may still be waiting for a STUN reply
+			if err := g.ag.A.Restart("", ""); err != nil {
+				c.Failf("harness/restart", "%v", err)
+			}
+			_ = g.ag.A.GatherCandidates()
+			if !g.closeAgent() {
+				c.Failf("C09/close-did-not-return", "%s: Close did not return", where)
+			}
+			c.Probe("cut-restart-gather-close")
+		case "restart+close":
+			// Restart supersedes the gathering, Close follows at once (no time for it to wind down)
+			if err := g.ag.A.Restart("", ""); err != nil {
+				c.Failf("harness/restart", "%v", err)
+			}
+			if !g.closeAgent() {
+				c.Failf("C09/close-did-not-return", "%s: Close did not return", where)
+			}
+			c.Probe("cut-restart-close")
 		case "close":
 			if !g.closeAgent() {
 				c.Failf("C09/close-did-not-return", "%s: Close did not return although the simulator kept serving parked callers", where)
@@ -126,6 +146,14 @@ func c09Sub(c *core.Ctx, t *tape.Tape, cfg gCfg, faults bool, cut int, kind stri
 	if c.Failed() {
 		return steps, false
 	}
+	if kind == "restart+close" || kind == "close" || kind == "restart+gather+close" {
+		// "after Close has returned": no simulated time may pass, only quiescence is awaited
+		synctest.Wait()
+		if open := g.agentSockets(true); len(open) > 0 {
+			c.Failf("C09/socket-open-after-close", "%s: %d socket(s) still open after Close returned: %v", where, len(open), describeSocks(open))
+			return steps, false
+		}
+	}
 	// serve the superseded gatherers until they have wound down
 	g.drain(faults)
 
@@ -142,9 +170,15 @@ func c09Sub(c *core.Ctx, t *tape.Tape, cfg gCfg, faults bool, cut int, kind stri
 			return steps, false
 		}
 	}
-	g.drain(false)
+	// "after Close has returned": no simulated time may pass, only quiescence is awaited
+	synctest.Wait()
 	if open := g.agentSockets(true); len(open) > 0 {
 		c.Failf("C09/socket-open-after-close", "%s: %d socket(s) still open after Close returned: %v", where, len(open), describeSocks(open))
+		return steps, false
+	}
+	g.drain(false)
+	if open := g.agentSockets(true); len(open) > 0 {
+		c.Failf("C09/socket-reopened-after-close", "%s: %d socket(s) open after the closed agent's gatherers wound down: %v", where, len(open), describeSocks(open))
 		return steps, false
 	}
 	for i, cl := range g.turn.Snapshot() {
